@@ -74,6 +74,12 @@ enum Peer {
     /// version. A client must not complete a step on that (whatever it
     /// stored would not be "restricted to the negotiated version").
     LegacyFlipFlop { max: u8 },
+    /// A non-conforming cache supporting versions up to `max` (1 or 2): in
+    /// about every other response exactly one PDU - the Cache Response, a
+    /// prefix PDU, a router key or the End of Data - carries another protocol
+    /// version than the rest (same layout, only the version octet differs).
+    /// A client must not complete a step on such a response.
+    LegacyMixed { max: u8 },
 }
 
 impl Peer {
@@ -85,12 +91,13 @@ impl Peer {
             Peer::LegacyErrorClose { max } => format!("legacy-error-close-v{}", max),
             Peer::LegacyReply { max } => format!("legacy-reply-v{}", max),
             Peer::LegacyFlipFlop { max } => format!("legacy-flipflop-v{}", max),
+            Peer::LegacyMixed { max } => format!("legacy-mixed-v{}", max),
         }
     }
     fn max_version(self) -> u8 {
         match self {
             Peer::Real => 2,
-            Peer::LegacyError { max } | Peer::LegacyErrorClose { max } | Peer::LegacyReply { max } | Peer::LegacyFlipFlop { max } => max,
+            Peer::LegacyError { max } | Peer::LegacyErrorClose { max } | Peer::LegacyReply { max } | Peer::LegacyFlipFlop { max } | Peer::LegacyMixed { max } => max,
         }
     }
 }
@@ -379,6 +386,27 @@ async fn legacy_cache(sh: Arc<Shared>, mut sock: SimSocket) {
                 }
             }
             _ => return,
+        }
+        if matches!(sh.peer, Peer::LegacyMixed { .. }) && sh.ctx.chance(1, 2) {
+            // stamp one PDU of the response with another version
+            let (pdus, _) = wire::parse_stream(&out);
+            let candidates: Vec<(usize, u8)> = pdus
+                .iter()
+                .filter_map(|(off, p)| {
+                    let others: Vec<u8> = match p {
+                        WirePdu::CacheResponse { .. } | WirePdu::Ipv4 { .. } | WirePdu::Ipv6 { .. } => (0..=2).filter(|w| *w != v).collect(),
+                        WirePdu::RouterKey { .. } | WirePdu::EndOfData { .. } if v >= 1 => (1..=2).filter(|w| *w != v).collect(),
+                        _ => Vec::new(),
+                    };
+                    if others.is_empty() { None } else { Some((*off, others[sh.ctx.choose(others.len() as u64) as usize])) }
+                })
+                .collect();
+            if !candidates.is_empty() {
+                let (off, w) = candidates[sh.ctx.choose(candidates.len() as u64) as usize];
+                out[off] = w;
+                sh.bump("fault_peer_one_pdu_in_other_version");
+                sh.ctx.ev(47, off as u64, || format!("non-conforming peer: PDU at offset {} of its v{} response carries version {}", off, v, w));
+            }
         }
         if sock.write_all(&out).await.is_err() {
             return;
@@ -770,7 +798,19 @@ async fn router(sh: Arc<Shared>, r: RouterCfg) {
 
 //------------ Chaos: source operations and transport faults -------------------------
 
-async fn chaos(sh: Arc<Shared>, uni: Arc<Universe>, mut notify: Option<NotifySender>, ops: u32, fault_kinds: [bool; 8]) {
+/// Error kinds a transport (TCP, TLS, a proxy) may report from one read or
+/// write call. The call fails once; later calls work again.
+const ERR_KINDS: [std::io::ErrorKind; 7] = [
+    std::io::ErrorKind::ConnectionReset,
+    std::io::ErrorKind::BrokenPipe,
+    std::io::ErrorKind::Interrupted,
+    std::io::ErrorKind::TimedOut,
+    std::io::ErrorKind::Other,
+    std::io::ErrorKind::ConnectionAborted,
+    std::io::ErrorKind::UnexpectedEof,
+];
+
+async fn chaos(sh: Arc<Shared>, uni: Arc<Universe>, mut notify: Option<NotifySender>, ops: u32, fault_kinds: [bool; 10]) {
     let ctx = sh.ctx.clone();
     for _ in 0..ops {
         if sh.failed() {
@@ -883,7 +923,7 @@ async fn chaos(sh: Arc<Shared>, uni: Arc<Universe>, mut notify: Option<NotifySen
                     Some(c) => c,
                     None => continue,
                 };
-                let enabled: Vec<usize> = (0..8).filter(|k| fault_kinds[*k]).collect();
+                let enabled: Vec<usize> = (0..10).filter(|k| fault_kinds[*k]).collect();
                 if enabled.is_empty() {
                     continue;
                 }
@@ -913,14 +953,30 @@ async fn chaos(sh: Arc<Shared>, uni: Arc<Universe>, mut notify: Option<NotifySen
                         sh.bump("fault_eof_s2c_with_loss");
                         ctx.ev(45, 1, || format!("t={}ms FAULT s->c cut, {} bytes lost", sh.now_ms(), lost));
                     }
+                    8 => {
+                        // one write call of the SERVER fails (the socket works
+                        // again afterwards); any error kind a transport may report
+                        let kind = ERR_KINDS[ctx.choose(ERR_KINDS.len() as u64) as usize];
+                        conn.s2c.lock().unwrap().write_err = Some(kind);
+                        conn.s2c.lock().unwrap().wake_writer();
+                        sh.bump("fault_write_error_server");
+                        ctx.ev(45, 8, || format!("t={}ms FAULT server write error {:?} (in flight: {})", sh.now_ms(), kind, in_flight));
+                    }
+                    9 => {
+                        let kind = ERR_KINDS[ctx.choose(ERR_KINDS.len() as u64) as usize];
+                        conn.c2s.lock().unwrap().read_err = Some(kind);
+                        conn.c2s.lock().unwrap().wake_reader();
+                        sh.bump("fault_read_error_server");
+                        ctx.ev(45, 9, || format!("t={}ms FAULT server read error {:?}", sh.now_ms(), kind));
+                    }
                     2 => {
-                        conn.s2c.lock().unwrap().read_err = Some(std::io::ErrorKind::ConnectionReset);
+                        conn.s2c.lock().unwrap().read_err = Some(ERR_KINDS[ctx.choose(ERR_KINDS.len() as u64) as usize]);
                         conn.s2c.lock().unwrap().wake_reader();
                         sh.bump("fault_read_error_client");
                         ctx.ev(45, 2, || format!("t={}ms FAULT client read error", sh.now_ms()));
                     }
                     3 => {
-                        conn.c2s.lock().unwrap().write_err = Some(std::io::ErrorKind::BrokenPipe);
+                        conn.c2s.lock().unwrap().write_err = Some(ERR_KINDS[ctx.choose(ERR_KINDS.len() as u64) as usize]);
                         conn.c2s.lock().unwrap().wake_writer();
                         sh.bump("fault_write_error_client");
                         ctx.ev(45, 3, || format!("t={}ms FAULT client write error", sh.now_ms()));
@@ -979,8 +1035,9 @@ impl C06 {
         let (peer, net, uni, source, routers, ops, fault_kinds) = {
             let mut t = ctx.tape.lock().unwrap();
             let sweep = match kind { RunKind::Sweep(i) => Some(i), RunKind::Random => None };
-            let peer = match sweep.map(|i| (i / 3) % 7).unwrap_or_else(|| t.weighted(&[12, 1, 1, 1, 1, 1, 1, 1]) as u64) {
+            let peer = match sweep.map(|i| (i / 3) % 7).unwrap_or_else(|| t.weighted(&[12, 1, 1, 1, 1, 1, 1, 1, 1]) as u64) {
                 7 => Peer::LegacyFlipFlop { max: t.choose(2) as u8 },
+                8 => Peer::LegacyMixed { max: 1 + t.choose(2) as u8 },
                 0 => Peer::Real,
                 1 => Peer::LegacyError { max: 0 },
                 2 => Peer::LegacyError { max: 1 },
@@ -1041,7 +1098,7 @@ impl C06 {
                 routers.push(RouterCfg { id, initial_version, init, steps });
             }
             let ops = if sweep.is_some() { (sweep.unwrap() / 63) as u32 % 3 } else { t.choose(if deep { 28 } else { 10 }) as u32 };
-            let mut fk = [false; 8];
+            let mut fk = [false; 10];
             if faulty {
                 for k in fk.iter_mut() {
                     *k = t.chance(1, 2);
@@ -1161,7 +1218,7 @@ impl C06 {
             let after = sh.counters.lock().unwrap().get("steps_completed");
             if after > before {
                 sh.bump("probe_converged_after_faults");
-            } else if matches!(peer, Peer::LegacyFlipFlop { .. }) {
+            } else if matches!(peer, Peer::LegacyFlipFlop { .. } | Peer::LegacyMixed { .. }) {
                 // nobody can (or may) complete a step against this peer
                 sh.bump("probe_no_step_against_nonconforming_peer");
             } else if !sh.failed() {
